@@ -175,6 +175,28 @@ CHECKS = {
     ),
 }
 
+# additions to the level text (sub-checks added after the later rounds of seeded changes, DESIGN section 8)
+EXTRA = {
+    "C02": " A routes sub-check delivers the depth settings through ten routes (keywords over a contrary configuration, re-configured and re-parsed objects, PLSSDesc config / keywords, parse_tracts) in four spellings.",
+    "C05": " Lists wrap over line breaks, run to 40 items, are parsed under the colon modes / segment, after the same text was read under other settings, and find_sec is given two lists in one text.",
+    "C06": " Every case is also parsed as the tract of a PLSSDesc, and a dry run under other settings must leave every derived attribute alone.",
+    "C07": " Chains written in front of lots must give the lots, divisions and acreages of the canonical spelling.",
+    "C03": " Follow-up calls on the same object (dry runs, re-parses, parse_tracts) and a volume sub-check (12 000 / 40 000 distinct Twp/Rge/Sec in one process) are included.",
+    "C10": " An after_queries sub-check parses descriptions lacking a section or Twp/Rge after public queries (is_error, filter_errors with arguments) about the very TRS strings involved.",
+    "C11": " A segmented sub-check requires every Twp/Rge segment that has no other option to fall back on its own.",
+    "C08": " Parse modes that are conservative on the generated texts (segment, colon modes, forced layout, sec_within) are switched on at random.",
+    "C04": " Modes are also combined (any 1..3 flags with or without a mandated layout).",
+    "C20": " Contradictory colon keywords, the required-mode fallback compared with a requested copy_all, a block that merely refers to another section, and sec_within combined with segment are included.",
+    "C13": " Config objects are a channel of their own and must not be changed by the keyword overrides of the object that used them; wait_to_parse is enumerated over eight channels.",
+    "C14": " A same-settings-same-result memo and a fixed set of canary parses (re-run after every history) catch state left behind in the process.",
+    "C15": " Further operations: shared Config objects, dry-run-first tracts, one object parsed with one-off overrides and then plainly; a second sub-check runs canary parses after any parse of any text.",
+    "C17": " A history sub-check interleaves sorts (string, list of keys, list led by a function) with growth and replacement of the same container.",
+    "C18": " An independence sub-check builds a container from another one (constructor, copy, +, from_multiple, slice, *, *=) and mutates either side.",
+    "C19": " Writers are reached through the TractList and the PLSSDesc; write() is handed six kinds of argument.",
+    "C16": " The dead-space and connective atoms are also pumped under each optional parse mode; the widest documented lot and section ranges are repeated.",
+    "C12": " Every edited string also goes through the setter and class-level entry points, equality / hash after normalisation is checked, the dict handed out by trs_to_dict may be changed by the caller, and empty input is enumerated over 15 entry points.",
+}
+
 NOT_BUILT = {}
 
 
@@ -186,6 +208,7 @@ def main():
         if pid not in CHECKS:
             continue
         tech, text, note, ref = CHECKS[pid]
+        text += EXTRA.get(pid, "")
         checks.append({
             "property_id": pid,
             "quick_cmd": f"./check {pid} --tier quick",
